@@ -6,6 +6,7 @@ import (
 	"sync/atomic"
 
 	neatmath "github.com/yaricom/goNEAT/v4/neat/math"
+	"github.com/yaricom/goNEAT/v4/neat/network"
 )
 
 // C18 — activation functions match their definitions, ranges and names.
@@ -201,7 +202,7 @@ func runC18(c *Ctx) {
 	if !c.Quick() {
 		step = 1
 	}
-	c.Rule = fmt.Sprintf("scalar functions: every float32 bit pattern with the low %d bits zero (finite values, walked in numeric order so monotonicity is a comparison of numeric neighbours), widened to float64, plus +-{0,1,2,3} ulps around every breakpoint, -0.0, powers of ten 1e-300..1e300 and exp-overflow thresholds; x 20 registered functions: closed form within 4 ulps or 1e-12 relative + 4e-16 absolute, finite, inside documented range, non-decreasing (<=4 ulps slack) for the sigmoid family/tanh/linear/clipped/step. lookups: all 256 type codes and every registered name with every single-character deletion/substitution. modules: all vectors of length 1..3 over 8 values. non-trivial = distinct (function, input) pairs / distinct lookup keys", map[bool]int{true: 10, false: 0}[c.Quick()])
+	c.Rule = fmt.Sprintf("scalar functions: every float32 bit pattern with the low %d bits zero (finite values, walked in numeric order so monotonicity is a comparison of numeric neighbours), widened to float64, plus +-{0,1,2,3} ulps around every breakpoint, -0.0, powers of ten 1e-300..1e300 and exp-overflow thresholds; x 20 registered functions: closed form within 4 ulps or 1e-12 relative + 4e-16 absolute, finite, inside documented range, non-decreasing (<=4 ulps slack) for the sigmoid family/tanh/linear/clipped/step. lookups: all 256 type codes and every registered name with every single-character deletion/substitution. modules: all vectors of length 1..3 over 8 values, through ActivateModuleByType and through network.ActivateModule on a control node under three link-weight patterns. non-trivial = distinct (function, input) pairs / distinct lookup keys", map[bool]int{true: 10, false: 0}[c.Quick()])
 	total := (uint64(1) << 32) / step
 	chunk := uint64(1 << 16)
 	nChunks := int((total + chunk - 1) / chunk)
@@ -414,6 +415,41 @@ func c18ModuleEval(mi int, in []float64) (string, string) {
 	return "", ""
 }
 
+// c18NetworkModule: the same module functions reached through network.ActivateModule (the entry point the
+// standard solver uses): a control node whose incoming links carry the weights w reads the activations of
+// its input nodes and must put the module function OF THOSE ACTIVATIONS on its output node.
+func c18NetworkModule(mi int, in, w []float64) (string, string) {
+	m := c18Modules[mi]
+	ctrl := network.NewNNode(100, network.HiddenNeuron)
+	ctrl.ActivationType = m.code
+	for i, v := range in {
+		src := network.NewSensorNode(i+1, false)
+		src.SensorLoad(v)
+		l := ctrl.AddIncoming(src, w[i%len(w)])
+		_ = l
+	}
+	out := network.NewNNode(50, network.OutputNeuron)
+	ctrl.AddOutgoing(out, w[0])
+	var err error
+	var pan interface{}
+	func() {
+		defer func() {
+			if r := recover(); r != nil {
+				pan = r
+			}
+		}()
+		err = network.ActivateModule(ctrl, neatmath.NodeActivators)
+	}()
+	if pan != nil || err != nil {
+		return "network-module-error", fmt.Sprintf("ActivateModule(%s, inputs %v): err=%v panic=%v", m.name, in, err, pan)
+	}
+	want := m.ref(in)
+	if got := out.Activation; !(got == want || (math.IsNaN(got) && math.IsNaN(want))) {
+		return "network-module-value", fmt.Sprintf("ActivateModule with %s over input activations %v (link weights %v) put %g on the output node, the %s of the inputs is %g", m.name, in, w, got, m.name, want)
+	}
+	return "", ""
+}
+
 func c18ModulesCheck(c *Ctx) {
 	V := len(c18ModVals)
 	for length := 1; length <= 3; length++ {
@@ -434,6 +470,13 @@ func c18ModulesCheck(c *Ctx) {
 				if cl, msg := c18ModuleEval(mi, in); cl != "" {
 					c.ViolateOrd("C18/"+c18Modules[mi].name+"/"+cl, int64(length)<<20|int64(idx), msg,
 						&Replay{Scenario: "module", Params: map[string]interface{}{"module": mi, "idx": idx, "len": length}})
+				}
+				for wi, w := range [][]float64{{1, 1, 1}, {0.5, 3, -2}, {2, 2, 2}} {
+					c.AddEval(1)
+					if cl, msg := c18NetworkModule(mi, in, w); cl != "" {
+						c.ViolateOrd("C18/"+c18Modules[mi].name+"/"+cl, int64(length)<<20|int64(idx)<<2|int64(wi), msg,
+							&Replay{Scenario: "module", Params: map[string]interface{}{"module": mi, "idx": idx, "len": length, "network": true, "weights": wi}})
+					}
 				}
 			}
 		}
